@@ -1,7 +1,7 @@
 (* C03 -- the rainflow result depends only on the reversal sequence; symmetries.
    Model: PL.Rainflow.Model (tied to the code by correspondence).  Only statements, `exact`, Print Assumptions. *)
 From Coq Require Import ZArith List Bool.
-From PL Require Import Rainflow.Model Rainflow.Eqb Rainflow.Spec Rainflow.SpecThm Rainflow.Symm Rainflow.Symm2 Rainflow.Bounded3 Rainflow.NaN Rainflow.Symm3 Rainflow.Symm3b.
+From PL Require Import Rainflow.Model Rainflow.Eqb Rainflow.Spec Rainflow.SpecThm Rainflow.Symm Rainflow.Symm2 Rainflow.Bounded3 Rainflow.NaN Rainflow.Symm3 Rainflow.Symm3b Rainflow.NaNChunk.
 Import ListNotations.
 Open Scope Z_scope.
 
@@ -92,6 +92,20 @@ Example negate_example :
   ([(-1, -2, 2%nat, 4%nat); (-3, -1, 1%nat, 5%nat)], [0; -3; 0], [0%nat; 6%nat; 7%nat], [8%nat]).
 Proof. vm_compute. reflexivity. Qed.
 
+(* a NaN-containing signal fed in ANY chunking (chunks may begin / end with NaNs or hold nothing else): what reaches the detectors is
+   `fed cs` (every chunk cleaned, empty ones are no-ops); cycles, residual and residual indices -- in positions of the cleaned signal --
+   are those of the NaN-free signal in one piece (unbounded; corollary of the C01 theorems; non-vacuity: NaNChunk.nan_chunked_example) *)
+Theorem nan_chunked_4pt cs : NaNChunk.fed cs <> [] ->
+  let '(c1, r1, i1, _) := run4 (NaNChunk.fed cs) in let '(c2, r2, i2, _) := run4 [clean (concat cs)] in
+  c1 = c2 /\ r1 = r2 /\ i1 = i2.
+Proof. exact (NaNChunk.nan_chunked_4pt cs). Qed.
+Theorem nan_chunked_3pt cs : NaNChunk.fed cs <> [] ->
+  let '(c1, r1, i1, _) := run3 (NaNChunk.fed cs) in let '(c2, r2, i2, _) := run3 [clean (concat cs)] in
+  c1 = c2 /\ r1 = r2 /\ i1 = i2.
+Proof. exact (NaNChunk.nan_chunked_3pt cs). Qed.
+Theorem nan_chunked_fkm cs : NaNChunk.fed cs <> [] -> runF (NaNChunk.fed cs) = runF [clean (concat cs)].
+Proof. exact (NaNChunk.nan_chunked_fkm cs). Qed.
+
 Print Assumptions negate_4pt.
 Print Assumptions affine_4pt.
 Print Assumptions negate_3pt.
@@ -107,3 +121,6 @@ Print Assumptions refine_insensitive_fkm.
 Print Assumptions nan_drop_index.
 Print Assumptions threepoint_symmetries_bounded.
 Print Assumptions threepoint_refine_bounded.
+Print Assumptions nan_chunked_4pt.
+Print Assumptions nan_chunked_3pt.
+Print Assumptions nan_chunked_fkm.
